@@ -197,7 +197,7 @@ def build(rng):
             if c == ncycles - 1:
                 data += sleb(-1)
             else:
-                dt = rng.choice([0, 0, 1, 7])
+                dt = rng.choice([0, 0, 1, 7, 7, 2 ** 31 - 1, 2 ** 31, 2 ** 32 + 5, 3 * 10 ** 9, 10 ** 12])   # fs: gaps of 2.1 us and more
                 if dt == 0:
                     delta_used = True
                 data += sleb(dt)
